@@ -45,14 +45,14 @@ func setMaxProcs(n int) int {
 	return runtime.GOMAXPROCS(n)
 }
 
-// guarded runs f under a generous wall-clock hang guard (60 s, then a second attempt with 180 s; the guarded
+// guarded runs f under a generous wall-clock hang guard (120 s, then a second attempt with 600 s; the guarded
 // cases normally take milliseconds). ok == false means f never returned on either attempt: the caller reports
 // a hang. Hung goroutines are leaked and may keep spinning; after 3 hangs callers stop early (core.Hangs()).
 func guarded[R any](f func() R) (r R, ok bool) { return guardedFor(1, f) }
 
 // guardedFor is guarded with both limits multiplied by scale (cases that legitimately take seconds, e.g. 64 MiB blocks)
 func guardedFor[R any](scale int, f func() R) (r R, ok bool) {
-	for _, d := range []time.Duration{time.Duration(scale) * 60 * time.Second, time.Duration(scale) * 180 * time.Second} {
+	for _, d := range []time.Duration{time.Duration(scale) * 120 * time.Second, time.Duration(scale) * 600 * time.Second} {
 		ch := make(chan R, 1)
 		go func() { ch <- f() }()
 		select {
